@@ -29,8 +29,8 @@ var (
 	// one bucket set per scope of c11Scopes (root and "rootagain" are the same scope). Within each kind the sets
 	// have equal length and equal identity in the root's bucket cache (the identity is a sum of bit patterns),
 	// some are permutations of each other, some have duplicated bounds.
-	c11VSpecs = [][]float64{{1, 1, 2}, {0.5, 2, 2}, {1, 2, 1}, {1, 1, 2}, {2, 0.5, 2}}
-	c11DSpecs = [][]time.Duration{{5, 1}, {2, 4}, {3, 3}, {5, 1}, {4, 2}}
+	c11VSpecs = [][]float64{{1, 1, 2}, {0.5, 2, 2}, {1, 2, 1}, {1, 1, 2}, {2, 0.5, 2}, {1}, {1}, {1}, {1}, {1}}
+	c11DSpecs = [][]time.Duration{{5, 1}, {2, 4}, {3, 3}, {5, 1}, {4, 2}, {1}, {1}, {1}, {1}, {1}}
 )
 
 // snapshotSig renders a snapshot canonically (also used to detect later changes of an old snapshot).
@@ -155,6 +155,16 @@ func c11Scopes() []c11Scope {
 		{"subtag", "p.a", base(map[string]string{"r": "1", "k": "2"}), func(r tally.Scope) tally.Scope {
 			return r.SubScope("a").Tagged(map[string]string{"k": "2", "r": "1"})
 		}},
+		// two tag sets made of the same "name=value" text split at different places, and two that differ only in a byte
+		// that is not valid UTF-8 next to a separator byte: four identities, four entries per metric in a snapshot
+		// the identity of "subtag" reached by another derivation, whose steps restate and override tags differently
+		{"subtag2", "p.a", base(map[string]string{"r": "1", "k": "2"}), func(r tally.Scope) tally.Scope {
+			return r.Tagged(map[string]string{"r": "1", "k": "0"}).SubScope("a").Tagged(map[string]string{"k": "2"})
+		}},
+		{"eq1", "p", base(map[string]string{"q": "b=c"}), func(r tally.Scope) tally.Scope { return r.Tagged(map[string]string{"q": "b=c"}) }},
+		{"eq2", "p", base(map[string]string{"q=b": "c"}), func(r tally.Scope) tally.Scope { return r.Tagged(map[string]string{"q=b": "c"}) }},
+		{"bin1", "p", base(map[string]string{"z": "1=\xff"}), func(r tally.Scope) tally.Scope { return r.Tagged(map[string]string{"z": "1=\xff"}) }},
+		{"bin2", "p", base(map[string]string{"z": "1=\xfe"}), func(r tally.Scope) tally.Scope { return r.Tagged(map[string]string{"z": "1=\xfe"}) }},
 	}
 }
 
@@ -164,6 +174,9 @@ func c11Alphabet() []string {
 		ms := []string{"inc 1", "inc -2", "upd 1.5", "upd -0.25", "rec 3", "hv 1", "hv 2.5", "hd 1", "hd 7"}
 		if sc.label == "rootagain" {
 			ms = []string{"inc 1", "rec 3", "hv 1"}
+		}
+		if sc.label == "eq1" || sc.label == "eq2" || sc.label == "bin1" || sc.label == "bin2" || sc.label == "subtag2" {
+			ms = []string{"inc 1"}
 		}
 		if sc.label == "root" || sc.label == "sub" {
 			// a histogram asked for with nil buckets: the test scope's configured defaults (value bounds, unsorted)
